@@ -51,7 +51,7 @@ def par_tlc(ctx, jobs, parallel=None):
         w = j.get("workers", share)
         return ctx.tlc(j["dir"], j["module"], j["cfg"], workers=w, label=j["label"],
                        timeout=j.get("timeout", 1500), count=False,
-                       env={"JAVA_TOOL_OPTIONS": "-Xss64m -XX:ParallelGCThreads=%d" % max(2, w)})
+                       env={"JAVA_TOOL_OPTIONS": "-Xss64m -Xmx%dm -XX:ParallelGCThreads=%d" % (j.get("heap_mb", 5000), max(2, w))})
 
     with ThreadPoolExecutor(max_workers=parallel) as ex:
         futs = [ex.submit(one, j) for j in jobs]
@@ -102,7 +102,7 @@ def judge_trace(ctx, spec_dir, module, cfg, trace_name, trace_path, what, chunks
         k, d, part = job
         return ctx.tlc(d, module, cfg, workers=stride, expect_ok=False, count=False,
                        label="trace:%s[%d]" % (what, k), timeout=1500,
-                       env={"JAVA_TOOL_OPTIONS": "-Xss64m -XX:ParallelGCThreads=2"})
+                       env={"JAVA_TOOL_OPTIONS": "-Xss64m -Xmx2500m -XX:ParallelGCThreads=2"})
 
     with ThreadPoolExecutor(max_workers=len(jobs)) as ex:
         results = list(ex.map(one, jobs))
